@@ -165,6 +165,19 @@ def gen_vpop(repo):
     kfirst = chr_lit(one(r"cdb_key\[0\]\s*=\s*'([^']+)'\s*;", vg, 'key prefix'), 'key prefix')
     klast = chr_lit(one(r"cdb_key\[cdbkeylen\s*-\s*1\]\s*=\s*'([^']+)'\s*;", vg, 'key suffix'), 'key suffix')
 
+    # ---- addrparse.c: what becomes of the result of user_exists()
+    ap = func_body(strip_comments(read(repo, 'qsmtpd/addrparse.c')), 'addrparse', 'qsmtpd/addrparse.c')
+    if not re.search(r'string\s+localpart\s*=\s*\{\s*\.len\s*=\s*\(\s*at\s*-\s*addr->s\s*\)\s*,\s*\.s\s*=\s*addr->s\s*\}\s*;\s*j\s*=\s*user_exists\(\s*&localpart\s*,\s*lookupdomain\s*,\s*ds\s*\)\s*;', ap):
+        raise TranslateError('addrparse: call of user_exists changed')
+    if not re.search(r'if\s*\(\s*j\s*<\s*0\s*\)\s*\{\s*free\(addr->s\)\s*;\s*STREMPTY\(\*addr\)\s*;\s*return\s+-j\s*;\s*\}\s*else\s+if\s*\(\s*!j\s*\)\s*\{', ap):
+        raise TranslateError('addrparse: mapping of the user_exists result changed')
+    nopre, nopost = one(r'const\s+char\s*\*logmsg\[\]\s*=\s*\{\s*"([^"]*)"\s*,\s*addr->s\s*,\s*"([^"]*)"\s*,\s*NULL\s*\}\s*;\s*tarpit\(\)\s*;\s*int\s+result\s*=\s*net_writen\(logmsg\)\s*;', ap, 'no such user reply')
+    if not re.search(r'return\s+result\s*\?\s*-result\s*:\s*-1\s*;\s*\}\s*return\s+0\s*;', ap):
+        raise TranslateError('addrparse: return values changed')
+    asx = strip_comments(read(repo, 'qsmtpd/addrsyntax.c'))
+    if not re.search(r"if\s*\(\s*\(\s*addr->s\[len\]\s*>=\s*'A'\s*\)\s*&&\s*\(\s*addr->s\[len\]\s*<=\s*'Z'\s*\)\s*\)\s*addr->s\[len\]\s*=\s*addr->s\[len\]\s*\+\s*\(\s*'a'\s*-\s*'A'\s*\)\s*;", asx):
+        raise TranslateError('addrsyntax: lower-casing of the address changed')
+
     out = HEADER % REL
     def nat(k, v): return 'Definition %s : nat := %d.\n' % (k, v)
     def n(k, v): return 'Definition %s : N := %d%%N.\n' % (k, v)
@@ -175,6 +188,7 @@ def gen_vpop(repo):
     out += n('VP_SLASH', slash) + n('VP_DOT', chr_lit(dot, 'dot')) + n('VP_COLON', chr_lit(colon, 'colon'))
     out += n('VP_DASH', chr_lit(dash, 'dash')) + n('VP_SCANDASH', dashc)
     out += n('VP_KEY_FIRST', kfirst) + n('VP_KEY_LAST', klast)
+    out += lst('VP_NOUSER_PRE', c_unescape(nopre)) + lst('VP_NOUSER_POST', c_unescape(nopost))
     out += nat('VP_PATH_MAX', sysc['PATH_MAX']) + nat('VP_NAME_MAX', sysc['NAME_MAX']) + nat('VP_CDBKEY', int(keysz))
     out += nat('VP_BOUNCE_MUL', int(bmul))
     out += 'Definition VP_QM_FLAGS : list nat := [%s].\n' % '; '.join(str(f) for f in flags)
